@@ -297,6 +297,16 @@ pub fn collect_modules(entry_path: &str) -> CliResult<Vec<ParsedModule>> {
                         dep_path.set_extension("incan");
                         if dep_path.exists() {
                             found_path = Some(dep_path.clone());
+                        } else {
+                            // Directory module: `<dir>/mod.incn` (documented), `<dir>/mod.incan` (legacy extension)
+                            let dir = dep_path.with_extension("");
+                            for mod_name in ["mod.incn", "mod.incan"] {
+                                let candidate = dir.join(mod_name);
+                                if candidate.exists() {
+                                    found_path = Some(candidate);
+                                    break;
+                                }
+                            }
                         }
                     }
 
